@@ -338,9 +338,10 @@ static int run_pass(struct ctx *c, const uint8_t *tape, size_t len, bool skip_ge
     }
     /* the end: read everything back once more, then let go */
     get_all(c, "at the end of the history");
-    if (c->kind == K_QUEUE) drain_loop(c, 64);
+    /* the queue sink holds buffers (and a reference on itself) until the loop has moved them: run the loop dry each time */
+    if (c->kind == K_QUEUE) drain_loop(c, 100000);
     upipe_release(c->pipe); c->pipe = NULL;
-    if (c->qsrc) { drain_loop(c, 64); upipe_release(c->qsrc); c->qsrc = NULL; drain_loop(c, 64); }
+    if (c->qsrc) { drain_loop(c, 100000); upipe_release(c->qsrc); c->qsrc = NULL; drain_loop(c, 100000); }
     if (c->pseudo) { upipe_release(c->pseudo); c->pseudo = NULL; }
     absorb(c, &from);
     if (c->delivered) CLS(CL_DATA_DELIVERED);
